@@ -321,11 +321,19 @@ def r4(run, ctx):
         if isinstance(v, ast.Call) and astq.call_last(v) == 'call_hook' and v.args and \
                 astq.const_value(v.args[0]) == 'before_signal':
             hook_name = k
-        if 'SIGKILL' in norm_text(v) and 'signum ==' in norm_text(v).replace('== signum', 'signum =='):
+        if any(isinstance(x, ast.Compare) and 'SIGKILL' in norm_text(x) and
+               'signum' in astq.names_in(x) for x in ast.walk(v)):
             kill_name = k
     if hook_name is None or kill_name is None:
         raise AnalysisError('C14 R4: cannot find hook-result / is-sigkill locals in send_signal')
     kv = defs[kill_name]
+    for x in ast.walk(kv):
+        if isinstance(x, ast.Compare) and 'SIGKILL' in norm_text(x):
+            run.check('R4', isinstance(x.ops[0], ast.Eq), 'SIGKILL is recognised by value', f, x,
+                      'SIGKILL is recognised by `%s`: signal numbers that come from a request or '
+                      'from the configuration are plain integers (to_signum), never the enum '
+                      'member, so for them the always-sent exemption does not apply'
+                      % norm_text(x), construct='SIGKILL compared by identity')
     run.check('R4', norm_text(kv) in ("hasattr(signal, 'SIGKILL') and signum == signal.SIGKILL",
                                       'signum == signal.SIGKILL',
                                       "signum == signal.SIGKILL and hasattr(signal, 'SIGKILL')"),
